@@ -850,7 +850,6 @@ func sliceOrigins(c *Ctx, pa *provAnalysis, v ssa.Value, resliced bool, seen map
 // checkSharedSlices: element stores into, and in-place appends onto, slices
 // whose backing array belongs to the configuration.
 func checkSharedSlices(c *Ctx, r *Report) {
-	pa := newProv(c)
 	var roots []*ssa.Function
 	for _, p := range c.Packagers {
 		roots = append(roots, p.Package, p.FileName)
@@ -866,6 +865,12 @@ func checkSharedSlices(c *Ctx, r *Report) {
 		}
 	}
 	reach := c.Reach(roots...)
+	n := checkSharedSlicesIn(c, r, reach)
+	r.Floor("W3-shared-slice", n, 3)
+}
+
+func checkSharedSlicesIn(c *Ctx, r *Report, reach map[*ssa.Function]bool) int {
+	pa := newProv(c)
 	n := 0
 	for _, fn := range sortedFuncs(c, reach) {
 		perFn := 0
@@ -933,7 +938,7 @@ func checkSharedSlices(c *Ctx, r *Report) {
 			}
 		})
 	}
-	r.Floor("W3-shared-slice", n, 3)
+	return n
 }
 
 // ---- G4: buffers that back package output are not shared ---------------------
